@@ -477,3 +477,172 @@ Definition live_step (st : list (N * N)) (e : ev) : list (N * N) :=
   | _ => st
   end.
 Definition live_after (st : list (N * N)) (l : list ev) : list (N * N) := fold_left live_step l st.
+
+(* ================================================================== derivation chains (worker w7)
+   Every accessor of src/volatile_memory.rs carries `mmap: Option<&MmapInfo>`: the handle through which
+   PtrGuard::new (:332-350) has the on-demand window mapped.  One bit per accessor: was Some(..) passed on.
+   Each derivation below transcribes the constructor call of the method: the geometry (offsets are relative
+   to the first byte of the region; pointer arithmetic inside one mapping does not overflow) and WHICH value
+   it passes as the `mmap` argument. *)
+Inductive accx :=
+| AxS (off len : N) (h : bool)          (* VolatileSlice  { addr, size, bitmap, mmap }  :393-398 *)
+| AxR (off t : N) (h : bool)            (* VolatileRef<T> { addr, bitmap, mmap }        :874-878 *)
+| AxA (off t n : N) (h : bool).         (* VolatileArrayRef<T> { addr, nelem, bitmap, phantom, mmap } :1003-1009 *)
+Definition acc_h (a : accx) : bool := match a with AxS _ _ h | AxR _ _ h | AxA _ _ _ h => h end.
+Definition acc_lo (a : accx) : N := match a with AxS o _ _ | AxR o _ _ | AxA o _ _ _ => o end.
+Definition acc_hi (a : accx) : N :=
+  match a with AxS o l _ => o + l | AxR o t _ => o + t | AxA o t n _ => o + n * t end.
+
+(* how a chain starts: an accessor handed out by the region *)
+Inductive droot :=
+| RGetSlice (off cnt : N)      (* MmapRegion::get_slice xen.rs:368-393 (VolatileMemory) and GuestRegionMmap::get_slice
+                                  mmap/mod.rs:350-357, which forwards to it *)
+| RAsVS                        (* as_volatile_slice: get_slice(0, len) volatile_memory.rs:120-122 / guest_memory.rs:268-270 *)
+| RGetRef (off t : N)          (* VolatileMemory::get_ref::<T> on the region :124-147 *)
+| RGetArr (off t n : N).       (* VolatileMemory::get_array_ref::<T> on the region :151-187 *)
+Inductive dstep :=
+| DSubslice (o c : N) | DOffset (o : N) | DSplitLo (mid : N) | DSplitHi (mid : N)
+| DGetSlice (o c : N)          (* VolatileMemory::get_slice on a VolatileSlice :853-855 = subslice *)
+| DGetRef (o t : N) | DGetArr (o t n : N) | DAsVS
+| DIntoArr                     (* From<VolatileSlice> for VolatileArrayRef<u8> :1302-1308 *)
+| DClone                       (* #[derive(Clone, Copy)]: field by field *)
+| DToSlice | DRefAt (i : N).
+
+(* Val (Some a) accessor obtained, Val None the method returned Err (or does not exist on this accessor kind),
+   Panic an assertion of the method *)
+Definition dval := outcome (option accx).
+
+(* subslice :492-507: compute_end_offset(offset, count)?; with_bitmap(addr+offset, count, .., self.mmap) *)
+Definition d_subslice (off len : N) (h : bool) (o c : N) : dval :=
+  match end_offset len o c with
+  | None => Val None
+  | Some _ => Val (Some (AxS (off + o) c h))
+  end.
+(* get_ref :124-147: get_slice(offset, size_of::<T>())?; with_bitmap(slice.addr, slice.bitmap, slice.mmap) *)
+Definition d_ref_of (s : dval) (t : N) : dval :=
+  match s with
+  | Val (Some (AxS so sl sh)) => let* _ := passert 128 (sl =? t) in Val (Some (AxR so t sh))
+  | Val (Some _) => Panic 128
+  | r => r
+  end.
+(* get_array_ref :151-187: nbytes = isize(n) * size?; get_slice(offset, nbytes)?;
+   with_bitmap(slice.addr, n, slice.bitmap, slice.mmap) *)
+Definition d_arr_of (get : N -> dval) (t n : N) : dval :=
+  match isz_mul n t with
+  | None => Val None
+  | Some nb =>
+      match get nb with
+      | Val (Some (AxS so sl sh)) => let* _ := passert 168 (sl =? nb) in Val (Some (AxA so t n sh))
+      | Val (Some _) => Panic 168
+      | r => r
+      end
+  end.
+
+(* the region's own get_slice xen.rs:368-393: compute_end_offset?; mmap_info = None if mmap_in_advance else
+   Some(&self.mmap); with_bitmap(as_ptr()+offset, count, .., mmap_info) *)
+Definition r_get_slice (g : xregion) (off cnt : N) : dval :=
+  match end_offset (xr_size g) off cnt with
+  | None => Val None
+  | Some _ => Val (Some (AxS off cnt (on_demand g)))
+  end.
+
+Definition d_root (m : mode) (g : xregion) (r : droot) : dval :=
+  match r with
+  | RGetSlice off cnt => r_get_slice g off cnt
+  | RAsVS => r_get_slice g 0 (xr_size g)
+  | RGetRef off t => d_ref_of (r_get_slice g off t) t
+  | RGetArr off t n => d_arr_of (fun nb => r_get_slice g off nb) t n
+  end.
+
+Definition d_step (m : mode) (a : accx) (s : dstep) : dval :=
+  match a, s with
+  | AxS off len h, DSubslice o c => d_subslice off len h o c
+  | AxS off len h, DGetSlice o c => d_subslice off len h o c                   (* :853-855 *)
+  | AxS off len h, DOffset o =>                                                  (* :513-536 *)
+      (* new_size = size.checked_sub(count)?; with_bitmap(addr+count, new_size, .., self.mmap) *)
+      if len <? o then Val None else Val (Some (AxS (off + o) (len - o) h))
+  | AxS off len h, DSplitHi mid =>                                               (* :479-487 end = self.offset(mid)? *)
+      if len <? mid then Val None else Val (Some (AxS (off + mid) (len - mid) h))
+  | AxS off len h, DSplitLo mid =>                                               (* :479-487 start = with_bitmap(self.addr, mid, .., self.mmap) *)
+      if len <? mid then Val None else Val (Some (AxS off mid h))
+  | AxS off len h, DGetRef o t => d_ref_of (d_subslice off len h o t) t
+  | AxS off len h, DGetArr o t n => d_arr_of (fun nb => d_subslice off len h o nb) t n
+  | AxS off len h, DAsVS =>                                                      (* :120-122 get_slice(0, len).unwrap() *)
+      match d_subslice off len h 0 len with Val None => Panic 121 | r => r end
+  | AxS off len h, DIntoArr => Val (Some (AxA off 1 len h))                      (* :1302-1308 with_bitmap(slice.addr, slice.len(), slice.bitmap, slice.mmap) *)
+  | AxR off t h, DToSlice => Val (Some (AxS off t h))                            (* :973-984 with_bitmap(addr, size_of::<T>(), .., self.mmap) *)
+  | AxA off t n h, DToSlice =>                                                   (* :1116-1128 with_bitmap(addr, nelem * element_size, .., self.mmap) *)
+      let* l := pmul m 1122 n t in Val (Some (AxS off l h))
+  | AxA off t n h, DRefAt i =>                                                   (* :1134-1143 *)
+      let* _ := passert 1135 (i <? n) in
+      let* bo := pmul m 1140 t i in
+      Val (Some (AxR (off + bo) t h))                                            (* with_bitmap(ptr, .., self.mmap) *)
+  | _, DClone => Val (Some a)
+  | _, _ => Val None
+  end.
+
+Fixpoint d_steps (m : mode) (a : accx) (l : list dstep) {struct l} : dval :=
+  match l with
+  | [] => Val (Some a)
+  | s :: r => match d_step m a s with
+              | Val (Some a') => d_steps m a' r
+              | x => x
+              end
+  end.
+Definition d_chain (m : mode) (g : xregion) (r : droot) (l : list dstep) : dval :=
+  match d_root m g r with
+  | Val (Some a) => d_steps m a l
+  | x => x
+  end.
+
+(* the guarded access that ends a chain *)
+Inductive dfinal :=
+| FGuard (w : bool)       (* ptr_guard() / ptr_guard_mut() of the accessor, every byte of guard.len() accessed through it *)
+| FBytes (w : bool)       (* slice: Bytes::read / write of a len-byte buffer at offset 0 (:696-735): guard of the whole slice;
+                             typed reference: load() / store() (:935-971): guard of size_of::<T>() bytes *)
+| FElem (i : N) (w : bool). (* array: load(i) / store(i, v) (:1147-1159) = ref_at(i).load()/store() *)
+
+(* (guard offset, guard length, write) - the bytes accessed are exactly those of the guard *)
+Definition fin_plan (m : mode) (a : accx) (f : dfinal) : outcome (option (N * N * bool)) :=
+  match a, f with
+  | AxS off len _, FGuard w | AxS off len _, FBytes w => Val (Some (off, len, w))     (* :439-446 self.len(); an empty buffer: no guard = an empty guard *)
+  | AxR off t _, FGuard w | AxR off t _, FBytes w => Val (Some (off, t, w))           (* :921-928 *)
+  | AxA off t n _, FGuard w => let* l := guard_len m (AArray t n) in Val (Some (off, l, w))   (* :1102-1109 *)
+  | AxA off t n _, FElem i w =>
+      let* _ := passert 1135 (i <? n) in
+      let* bo := pmul m 1140 t i in Val (Some (off + bo, t, w))
+  | _, _ => Val None
+  end.
+
+(* the operation a whole chain amounts to, in terms of the operations of the history model: a guard over
+   [goff, goff+glen) when the final accessor carries the handle (PtrGuard::new(Some(..)) -> MmapXen::mmap ->
+   window), the bare dereference of the stored address when it does not (PtrGuard::new(None) ->
+   MmapXenSlice::raw xen.rs:920-928); a refused derivation: an operation that answers Err *)
+Definition err_xop (g : xregion) : xop := XSliceGuard (xr_size g + 1) 0 false.
+Definition chain_op (m : mode) (g : xregion) (r : droot) (l : list dstep) (f : dfinal) : outcome xop :=
+  match d_chain m g r l with
+  | Val (Some a) =>
+      match fin_plan m a f with
+      | Val (Some (goff, glen, w)) => Val (if acc_h a then XSliceGuard goff glen w else XCopyToVS goff glen)
+      | Val None => Val (err_xop g)
+      | Panic s => Panic s
+      | OutOfFuel => OutOfFuel
+      end
+  | Val None => Val (err_xop g)
+  | Panic s => Panic s
+  | OutOfFuel => OutOfFuel
+  end.
+
+(* ================================================================== GntDevMapGrantRef::new xen.rs:732-745 (worker w7)
+   for (i, r) in refs.iter_mut().enumerate().take(count) { r.domid = domid; r.reference = base + i as u32; }
+   (u32 arithmetic: `i as u32` truncates, `+` panics on overflow in a debug build and wraps in a release build) *)
+Definition W32 : N := 4294967296.
+Fixpoint gnt_refs_new (m : mode) (domid base i : N) (count : nat) {struct count} : outcome (list (N * N)) :=
+  match count with
+  | O => Val []
+  | S k =>
+      let s := base + i mod W32 in
+      let* r := (if s <? W32 then Val s else match m with Debug => Panic 740 | Release => Val (s mod W32) end) in
+      let* rest := gnt_refs_new m domid base (i + 1) k in
+      Val ((domid, r) :: rest)
+  end.
